@@ -22,7 +22,7 @@ Files: temporary objects are numbered by pipeline; `Files.temps` are those that 
 pipeline).  `exit()` runs the `atexit` handler `cleanup`, which unlinks every recorded temporary.
 
 The second part models the file descriptors of `spawnphase` (pipe ends, `FD_CLOEXEC`, `dup2`
-into the child, `close` in the driver).
+into the child, `close` of the handed-over read end and of the write end in the driver).
 -/
 
 namespace CprocVerif.DriverFail
@@ -182,15 +182,22 @@ def childFds (driver : List Fd) (stdin : Option Nat) (stdout : Option Nat) : Lis
   (match stdin with | some p => [(p, End.rd)] | none => []) ++
   (match stdout with | some p => [(p, End.wr)] | none => [])
 
+/-- `if (*fd != -1) close(*fd);` after a successful spawn: the stage has its own copy -/
+def closeCur (cur : Option Nat) (d : List Fd) : List Fd :=
+  match cur with
+  | some p => d.filter fun f => !(f.pipe == p && f.side == .rd)
+  | none => d
+
 /-- one `spawnphase(&stages[k], &fd, …, last)`; `cloexec` = the two `fcntl(F_SETFD, FD_CLOEXEC)` -/
 def spawnphaseFd (cloexec : Bool) (k : Nat) (last : Bool) (s : FdState) : FdState :=
   if last then
-    { s with children := s.children ++ [childFds s.driver s.cur none] }
+    { s with driver := closeCur s.cur s.driver
+             children := s.children ++ [childFds s.driver s.cur none] }
   else
     let d1 := s.driver ++ [⟨k, .rd, cloexec⟩, ⟨k, .wr, cloexec⟩]        -- pipe(pipefd) + fcntl
     let child := childFds d1 s.cur (some k)                              -- adddup2(*fd, 0), adddup2(pipefd[1], 1)
-    { driver := d1.filter (fun f => !(f.pipe == k && f.side == .wr))     -- close(pipefd[1])
-      cur := some k                                                      -- *fd = pipefd[0] (the old *fd stays open)
+    { driver := (closeCur s.cur d1).filter (fun f => !(f.pipe == k && f.side == .wr))   -- close(*fd); close(pipefd[1])
+      cur := some k                                                      -- *fd = pipefd[0]
       children := s.children ++ [child] }
 
 def spawnAllFd (cloexec : Bool) (n : Nat) : Nat → Nat → FdState → FdState
